@@ -38,7 +38,8 @@ ASSUMPTIONS = [
     "HTTP/1.0 close-delimited bodies are excluded by the property (truncation is invisible by protocol design)",
     "for a WebSocket that was accepted, 'visibly incomplete' means a 1011 close frame or the connection being dropped",
 ]
-BOUNDS_DOC = {"quick": "M<=1, S<=2", "thorough": "M<=2, S<=3, trio R<=1"}
+BOUNDS_DOC = {"quick": "M<=1, S<=2; trio additionally M=0, S<=1, R<=1 (batch / wake order)",
+              "thorough": "M<=2, S<=3, trio R<=1; trio additionally M=0, S<=2, R<=2"}
 BUDGET = {"quick": 300, "thorough": 1800}
 
 HTTP_BASE = [
@@ -61,7 +62,9 @@ HEALTHY = [("recv_body",), ("gate", "gb"), ("send", {"type": "http.response.star
 HEALTHY_NOGATE = [op for op in HEALTHY if op[0] != "gate"]
 KINDS = ["raise", "return", "cancel", "raise_group", "badstart"]
 BAD_START = {"type": "http.response.start", "status": 200, "headers": [(b"x-bad", b"a\r\nset-cookie: b")]}
-CONTEXTS = ["h1_seq", "h1_pipe", "h2", "h2up", "ws/h1", "ws/h2"]  # h2up: the client keeps uploading to the failed stream
+# h2up: the client keeps uploading to the failed stream; h2full: the failing application is gated until more unread
+# body messages than max_app_queue_size (10) are queued for it and the connection's reader waits for room
+CONTEXTS = ["h1_seq", "h1_pipe", "h2", "h2up", "h2full", "ws/h1", "ws/h2"]
 
 
 def failing(base: list, k: int, kind: str, framing: str) -> list:
@@ -97,20 +100,29 @@ def scenarios(tier: str) -> List[Any]:
                             continue
                         if ctx == "h2up" and (kind != "raise" or k not in (0, 1) or framing != "cl"):
                             continue
+                        if ctx == "h2full" and (kind not in ("raise", "return") or k not in (0, 1, 3) or framing != "cl"):
+                            continue
                         if kind == "raise_group" and k not in (0, 2, 3):
                             continue
                         out.append((engine, ctx, framing, k, kind))
+                        if engine == "trio" and ctx != "h2full":
+                            # trio's own scheduling freedom (batch order / wake order), environment at quiescence
+                            out.append((engine, ctx, framing, k, kind, "rev"))
     return out
 
 
 def bounds(tier: str, params: Any) -> dict:
+    if len(params) > 5:
+        return {"M": 0, "S": 1, "R": 1} if tier == "quick" else {"M": 0, "S": 2, "R": 2}
+    if params[1] == "h2full":  # 20 client events: only the placement of the gate release / sibling matters
+        return {"M": 0, "S": 1, "R": 0} if tier == "quick" else {"M": 1, "S": 2, "R": 1 if params[0] == "trio" else 0}
     if tier == "quick":
         return {"M": 1, "S": 2, "R": 0}
     return {"M": 2, "S": 3, "R": 1 if params[0] == "trio" else 0}
 
 
 def build(params: Any) -> tuple:
-    engine, ctx, framing, k, kind = params
+    engine, ctx, framing, k, kind = params[:5]
     other = [("connect", 1, {"carrier": "h1", "methods": [b"GET"]}), ("data", 1, h1_request(b"GET", b"/c"))]
     if ctx.startswith("h1"):
         a = h1_request(b"POST", b"/a", body=b"xy")
@@ -138,6 +150,15 @@ def build(params: Any) -> tuple:
         conn = {"carrier": "h2", "tls": True, "alpn": "h2"}
         apps = {"http:/a": failing(HTTP_BASE, k, kind, framing), "http:/b": HEALTHY_NOGATE, "http:/c": HEALTHY_NOGATE}
         app_src = []
+    elif ctx == "h2full":
+        client = [("cmd", 0, "preface"), ("cmd", 0, "headers", 1, h2_request_headers(b"POST", b"/a"), False)]
+        client += [("cmd", 0, "datan", 1, b"u%d" % i, False) for i in range(14)]
+        client += [("cmd", 0, "headers", 3, h2_request_headers(b"POST", b"/b"), False),
+                   ("cmd", 0, "datan", 3, b"v" * 100, False), ("cmd", 0, "datan", 3, b"v" * 100, True)]
+        conn = {"carrier": "h2", "tls": True, "alpn": "h2"}
+        apps = {"http:/a": [("gate", "ga")] + failing(HTTP_BASE, k, kind, framing), "http:/b": HEALTHY_NOGATE,
+                "http:/c": HEALTHY_NOGATE}
+        app_src = [("release", "ga")]
     elif ctx == "ws/h1":
         client = [("data", 0, ws_h1_handshake(b"/a")), ("wait_status", 0), ("data", 0, ws_frame(OP_TEXT, b"yo"))]
         conn = {"carrier": "ws/h1"}
@@ -158,7 +179,7 @@ def build(params: Any) -> tuple:
 
 
 def oracle(w: Any, params: Any) -> List[dict]:
-    engine, ctx, framing, k, kind = params
+    engine, ctx, framing, k, kind = params[:5]
     out: List[dict] = []
     rec = w.conns[0]
     cl = rec.client
@@ -236,7 +257,7 @@ def oracle(w: Any, params: Any) -> List[dict]:
     # --- containment
     fired = [e for _, e in w.driver.fired]
     inst_b = next((i for i in w.instances if i.scope.get("path") == "/b"), None)
-    if ctx == "h2up" and not lost and rec.closed_at is None:
+    if ctx in ("h2up", "h2full") and not lost and rec.closed_at is None and inst_a.outcome != "running":
         left = w.driver.sources[0][1][w.driver.pos[0]:]
         st3 = cl.h2.streams.get(3)
         if left:
